@@ -227,6 +227,7 @@ class Module:
         return f'<module {self.name}>'
 
 
+pack_cons = z3.Function('argspack_cons', Val, Val, Val)      # (x, *pack) as one opaque value
 same_object = z3.Function('same_object', Val, Val, z3.BoolSort())     # identity of two equal non-singleton values: unconstrained
 NOKW = z3.Const('NOKW', Val)                    # the empty **kwargs pack
 eargs = z3.Function('eargs', Val, Val)          # args tuple of an exception value
@@ -451,6 +452,12 @@ class Exec:
             for anc in b.__mro__[1:]:
                 if anc.__name__ in V.CLASS_TREE:
                     return ExcClass(anc.__name__, exact=False, written=name)
+        # a module-level function of the file under verification that no contract models (typically a helper extracted by a refactoring): its real body is
+        # inlined at the call (callee's code instead of a callee contract), like an unmodelled method of `self`
+        fn = self.unit.resolve_module_function(name) if hasattr(self.unit, 'resolve_module_function') else None
+        if fn is not None:
+            self.note_ignored(node, f'module-level function `{name}` has no contract: its body (line {fn.lineno}) is inlined')
+            return Closure(fn, self)
         raise Unsupported(f'name `{name}`')
 
     def ev_Name(self, e, st):
@@ -515,6 +522,26 @@ class Exec:
 
     def ev_Tuple(self, e, st):
         if any(isinstance(x, ast.Starred) for x in e.elts):
+            # (a, b, *pack) with an opaque *args pack as the LAST element: a new pack that remembers its known head
+            if isinstance(e.elts[-1], ast.Starred) and not any(isinstance(x, ast.Starred) for x in e.elts[:-1]):
+                outs = [('ok', st, [])]
+                for el in e.elts[:-1]:
+                    outs = self.bind(outs, lambda s, acc, el=el: self.bind(self.ev(el, s), lambda s2, v: [('ok', s2, acc + [v])]))
+
+                def fin(s, acc):
+                    def g(s2, tail):
+                        if isinstance(tail, StarPack):
+                            v = tail.val
+                            for h in reversed(acc):
+                                v = pack_cons(box(self, h), v)
+                            p = StarPack(v)
+                            p.head, p.tail = list(acc) + list(getattr(tail, 'head', [])), getattr(tail, 'tail', tail)
+                            return [('ok', s2, p)]
+                        if isinstance(tail, PyTuple):
+                            return [('ok', s2, PyTuple(list(acc) + list(tail.items)))]
+                        raise Unsupported('starred in tuple (not an *args pack)')
+                    return self.bind(self.ev(e.elts[-1].value, s), g)
+                return self.bind(outs, fin)
             raise Unsupported('starred in tuple')
         outs = [('ok', st, [])]
         for el in e.elts:
@@ -915,7 +942,10 @@ class Exec:
                 else:
                     out.append(x)
                 return
-            if isinstance(x, (ast.Lambda, ast.GeneratorExp, ast.ListComp, ast.SetComp, ast.DictComp)):
+            if isinstance(x, ast.Lambda):
+                return
+            if isinstance(x, (ast.GeneratorExp, ast.ListComp, ast.SetComp, ast.DictComp)):
+                walk(x.generators[0].iter)          # what is iterated over is evaluated (in the enclosing scope); the element expressions are not
                 return
             for c in ast.iter_child_nodes(x):
                 walk(c)
